@@ -24,7 +24,30 @@ class Poly:
     def atom(name, exp=1):
         return Poly({((name, Fraction(exp)),): Fraction(1)})
 
+    @staticmethod
+    def _coerce(o):
+        if isinstance(o, Poly):
+            return o
+        if isinstance(o, (int, Fraction)) and not isinstance(o, bool):
+            return Poly.const(o)
+        return None
+
+    def __radd__(self, o):
+        o = Poly._coerce(o)
+        return NotImplemented if o is None else o + self
+
+    def __rsub__(self, o):
+        o = Poly._coerce(o)
+        return NotImplemented if o is None else o - self
+
+    def __rmul__(self, o):
+        o = Poly._coerce(o)
+        return NotImplemented if o is None else o * self
+
     def __add__(self, o):
+        o = Poly._coerce(o)
+        if o is None:
+            return NotImplemented
         t = dict(self.terms)
         for k, v in o.terms.items():
             t[k] = t.get(k, 0) + v
@@ -34,9 +57,15 @@ class Poly:
         return Poly({k: -v for k, v in self.terms.items()})
 
     def __sub__(self, o):
+        o = Poly._coerce(o)
+        if o is None:
+            return NotImplemented
         return self + (-o)
 
     def __mul__(self, o):
+        o = Poly._coerce(o)
+        if o is None:
+            return NotImplemented
         t = {}
         for k1, v1 in self.terms.items():
             for k2, v2 in o.terms.items():
